@@ -132,6 +132,9 @@ type c02Case struct {
 	batch    []int
 	pref     options.PreferencePolicy
 	workers  int
+	// podsFirst: the cluster cache is built in the order of a restarted controller (Pod events before their nodes are
+	// known, retries still outstanding when the pass runs)
+	podsFirst bool
 }
 
 func (c c02Case) String() string {
@@ -148,6 +151,9 @@ func (c c02Case) String() string {
 	}
 	for _, i := range c.batch {
 		b = append(b, c02Shapes[i].name)
+	}
+	if c.podsFirst {
+		return fmt.Sprintf("layout=%d existing=[%s] batch=[%s] pref=%s workers=%d cache-built=pod-events-before-their-nodes", c.layout, strings.Join(ex, " "), strings.Join(b, ", "), c.pref, c.workers)
 	}
 	return fmt.Sprintf("layout=%d existing=[%s] batch=[%s] pref=%s workers=%d", c.layout, strings.Join(ex, " "), strings.Join(b, ", "), c.pref, c.workers)
 }
@@ -202,7 +208,9 @@ func c02Build(c c02Case) (*SchedEnv, map[string]string) {
 		w.Add(p)
 	}
 	w.Add(&corev1.Namespace{ObjectMeta: metav1.ObjectMeta{Name: "default"}}, &corev1.Namespace{ObjectMeta: metav1.ObjectMeta{Name: "other"}})
+	w.PodsFirst = c.podsFirst
 	w.SyncCluster()
+	w.PodsFirst = false
 	return env, zones
 }
 
@@ -515,14 +523,20 @@ func init() {
 		bl := batches(len(c02Shapes), bsz)
 		layouts := []int{0, 1, 2}
 		prefs := []options.PreferencePolicy{options.PreferencePolicyRespect, options.PreferencePolicyIgnore}
-		r.Rule = fmt.Sprintf("node layouts {2 nodes in 2 zones, +1 small node, none} x existing pod distributions (multisets of <=2 of %d kinds: app x/y per node, another namespace, a running pod carrying anti-affinity) x all batches of <=%d pods from %d inter-pod shapes (required/preferred anti-affinity and affinity on hostname/zone, self- and cross-selecting, all-namespaces selector; DoNotSchedule / ScheduleAnyway spread on zone/hostname/capacity-type with maxSkew 1-2, minDomains, matchLabelKeys, zone-confined) x both preference policies x workers %v with <=%d completion-order deviations (<=1 with three workers), through the real Provisioner.Schedule + CreateNodeClaims. "+
-			"Oracle over domain sets (a real node -> its label; a new NodeClaim -> itself for hostname and, for zone / capacity-type, every value some permitted launch of the created NodeClaim can have): required anti-affinity in either direction incl. running pods (violation iff domain sets intersect); required affinity (every domain the pod can end in must be able to hold a match; self-matching groups must not split); DoNotSchedule skew in every domain that received a carrier pod (flagged only if exceeded under every assignment of undetermined pods and both readings of the eligible domains). non-trivial = distinct (case, outcome) with a placed pod that carries or is selected by a constraint", len(menu), bsz, len(c02Shapes), workers, bound)
+		r.Rule = fmt.Sprintf("node layouts {2 nodes in 2 zones, +1 small node, none} x existing pod distributions (multisets of <=2 of %d kinds: app x/y per node, another namespace, a running pod carrying anti-affinity) x all batches of <=%d pods from %d inter-pod shapes (required/preferred anti-affinity and affinity on hostname/zone, self- and cross-selecting, all-namespaces selector; DoNotSchedule / ScheduleAnyway spread on zone/hostname/capacity-type with maxSkew 1-2, minDomains, matchLabelKeys, zone-confined) x both preference policies x workers %v with <=%d completion-order deviations (<=1 with three workers), through the real Provisioner.Schedule + CreateNodeClaims; plus, for every world with a running pod and every batch of <=%d pods, the same pass with the cluster cache built in the event order of a restarted controller (Pod events reconciled before their nodes are known, retries still outstanding). "+
+			"Oracle over domain sets (a real node -> its label; a new NodeClaim -> itself for hostname and, for zone / capacity-type, every value some permitted launch of the created NodeClaim can have): required anti-affinity in either direction incl. running pods (violation iff domain sets intersect); required affinity (every domain the pod can end in must be able to hold a match; self-matching groups must not split); DoNotSchedule skew in every domain that received a carrier pod (flagged only if exceeded under every assignment of undetermined pods and both readings of the eligible domains). non-trivial = distinct (case, outcome) with a placed pod that carries or is selected by a constraint", len(menu), bsz, len(c02Shapes), workers, bound, bsz-1)
 		r.Assumptions = []string{"node inclusion policies at their defaults", "the affinity bootstrap clause is judged leniently (a self-matching pod with no other match anywhere may start a domain)", "Go map iteration order (random domain choice) is sampled, not enumerated"}
 		n := enum.Size(len(bl), len(exs), len(layouts), len(prefs))
-		enum.Run(r, n, func(idx int64, l *ev.Local) {
-			d := enum.Odo(idx, len(bl), len(exs), len(layouts), len(prefs))
-			for _, wk := range workers {
-				c := c02Case{layout: layouts[d[2]], existing: exs[d[1]], batch: bl[d[0]], pref: prefs[d[3]], workers: wk}
+		// the same worlds after a controller restart: wherever a running pod is involved, the cache is also built with the Pod
+		// events first (one worker, no completion-order deviations)
+		var exsRunning [][]c02Existing
+		for _, e := range exs {
+			if len(e) > 0 {
+				exsRunning = append(exsRunning, e)
+			}
+		}
+		runCase := func(idx int64, l *ev.Local, c c02Case, wk, bound int) {
+			{
 				b := bound
 				if wk >= 3 && b > 1 {
 					b = 1 // three workers: one completion-order deviation (keeps the thorough tier within its deadline)
@@ -558,7 +572,20 @@ func init() {
 				noteDiverged(l, ex, "case")
 				l.Transitions += int64(ex.Points)
 			}
+		}
+		enum.Run(r, n, func(idx int64, l *ev.Local) {
+			d := enum.Odo(idx, len(bl), len(exs), len(layouts), len(prefs))
+			for _, wk := range workers {
+				runCase(idx, l, c02Case{layout: layouts[d[2]], existing: exs[d[1]], batch: bl[d[0]], pref: prefs[d[3]], workers: wk}, wk, bound)
+			}
 		})
+		bl1 := batches(len(c02Shapes), bsz-1)
+		n2 := enum.Size(len(bl1), len(exsRunning), 2, len(prefs))
+		enum.Run(r, n2, func(idx int64, l *ev.Local) {
+			d := enum.Odo(idx, len(bl1), len(exsRunning), 2, len(prefs))
+			runCase(n+idx, l, c02Case{layout: layouts[d[2]], existing: exsRunning[d[1]], batch: bl1[d[0]], pref: prefs[d[3]], workers: 1, podsFirst: true}, 1, 0)
+		})
+		r.Extra["restart_order_cases"] = n2
 	})
 }
 
